@@ -32,35 +32,46 @@ theorem ratfunc_linear_range (b c f : Rat) (hb : b ≠ 0) (hf : f ≠ 0) (dt : D
   rw [calcLimits_ratFunc_linear b c f hb hf]
   exact ratfunc_interval b c f _ _ hb hf (datatypeLimits_fst_le_snd dt)
 
-/-- **the decision** (carriers with tolerance): an error is reported exactly when a declared limit lies outside the
-    calculated range by more than the relative tolerance. -/
-theorem error_iff (carrier : Carrier) (hc : carrier ≠ .typedefMeasurement) (conv : Conv) (dt : DataType)
+/-- **the decision**, for each of the five carriers: an error is reported exactly when a declared limit lies outside
+    the calculated range by more than the relative tolerance. -/
+theorem error_iff (carrier : Carrier) (conv : Conv) (dt : DataType)
     (ex cl : Rat × Rat) (h : calcLimits conv dt = some cl) :
     reportsError carrier conv dt ex = some true ↔
       (ex.1 < cl.1 - ratAbs (cl.1 * tol) ∨ ex.2 > cl.2 + ratAbs (cl.2 * tol)) := by
-  rw [reportsError_of_calc carrier conv dt ex cl h, if_neg hc, ← limitsValid_eq_false_iff]
+  rw [reportsError_of_calc carrier conv dt ex cl h, ← limitsValid_eq_false_iff]
   simp
 
-/-- TYPEDEF_MEASUREMENT: same decision without tolerance -/
-theorem error_iff_strict (conv : Conv) (dt : DataType) (ex cl : Rat × Rat) (h : calcLimits conv dt = some cl) :
-    reportsError .typedefMeasurement conv dt ex = some true ↔ (ex.1 < cl.1 ∨ ex.2 > cl.2) := by
-  rw [reportsError_of_calc _ conv dt ex cl h, if_pos rfl, ← limitsValidStrict_eq_false_iff]
-  simp
+/-- TYPEDEF_MEASUREMENT decides like MEASUREMENT (it compared without tolerance before the fix recorded in
+    DESIGN 9.4: declared limits outside the range by less than the tolerance were reported for this carrier only) -/
+theorem typedef_measurement_same_decision (conv : Conv) (dt : DataType) (ex : Rat × Rat) :
+    reportsError .typedefMeasurement conv dt ex = reportsError .measurement conv dt ex := by
+  unfold reportsError
+  cases calcLimits conv dt <;> rfl
+
+/-- the comparison without tolerance is the stricter one: whatever it accepts, the tolerant one accepts; and the two
+    differ (UBYTE range 0..255, declared upper limit 255.0001) -/
+theorem strict_implies_tolerant (ex cl : Rat × Rat) (h : limitsValidStrict ex cl = true) : limitsValid ex cl = true := by
+  rw [← Bool.not_eq_false, limitsValid_eq_false_iff]
+  rw [← Bool.not_eq_false, limitsValidStrict_eq_false_iff] at h
+  rintro (h1 | h1)
+  · exact h (.inl (by linarith [ratAbs_nonneg (cl.1 * tol)]))
+  · exact h (.inr (by linarith [ratAbs_nonneg (cl.2 * tol)]))
+
+theorem tolerant_not_strict :
+    limitsValid (0, 2550001 / 10000) (0, 255) = true ∧ limitsValidStrict (0, 2550001 / 10000) (0, 255) = false := by
+  decide +kernel
 
 /-- declared limits inside the calculated range never cause an error, for any carrier -/
 theorem inside_no_error (carrier : Carrier) (conv : Conv) (dt : DataType) (ex cl : Rat × Rat)
     (h : calcLimits conv dt = some cl) (h1 : cl.1 ≤ ex.1) (h2 : ex.2 ≤ cl.2) :
     reportsError carrier conv dt ex = some false := by
   rw [reportsError_of_calc carrier conv dt ex cl h]
-  have hs : limitsValidStrict ex cl = true := by
-    rw [← Bool.not_eq_false, limitsValidStrict_eq_false_iff]
-    rintro (h | h) <;> linarith
   have hv : limitsValid ex cl = true := by
     rw [← Bool.not_eq_false, limitsValid_eq_false_iff]
     rintro (h | h)
     · linarith [ratAbs_nonneg (cl.1 * tol)]
     · linarith [ratAbs_nonneg (cl.2 * tol)]
-  split <;> simp [hs, hv]
+  simp [hv]
 
 /-- declared limits outside by more than the tolerance always cause an error, for any carrier -/
 theorem outside_error (carrier : Carrier) (conv : Conv) (dt : DataType) (ex cl : Rat × Rat)
@@ -69,12 +80,7 @@ theorem outside_error (carrier : Carrier) (conv : Conv) (dt : DataType) (ex cl :
     reportsError carrier conv dt ex = some true := by
   rw [reportsError_of_calc carrier conv dt ex cl h]
   have hv : limitsValid ex cl = false := (limitsValid_eq_false_iff ex cl).2 hout
-  have hs : limitsValidStrict ex cl = false := by
-    rw [limitsValidStrict_eq_false_iff]
-    rcases hout with h | h
-    · left; linarith [ratAbs_nonneg (cl.1 * tol)]
-    · right; linarith [ratAbs_nonneg (cl.2 * tol)]
-  split <;> simp [hs, hv]
+  simp [hv]
 
 /-- **conversions that are not evaluated (FORM, general RAT_FUNC) never cause a limit error**, for any declared
     limits representable as finite `f64` values. -/
